@@ -26,7 +26,7 @@ simset.inject(wpool, wabs)
 P = 'C12'
 BUDGETS = {'C12': (40, 900, 200)}
 LEVELS = {'C12': 'exploration'}
-PROBES = {'C12': ['waiter_blocked', 'cancel_while_waiting', 'cancel_while_holding', 'cancel_while_connecting',
+PROBES = {'C12': ['cancel_just_notified', 'waiter_blocked', 'cancel_while_waiting', 'cancel_while_holding', 'cancel_while_connecting',
                   'connect_failed', 'remote_closed_idle', 'force_clean', 'reused_connection']}
 INFO = {'C12': {
     'rule': 'workload = (clients N in 2..6, hosts H in 1..3, per-host limit M in 1..3, per-client rounds with '
@@ -276,6 +276,31 @@ def run(tape, prop, tier):
             refuse_next[0] = 0
             fail_times = [tape.choice((0.0, 0.05, 0.3, 1.0), 'fail.when') for _ in range(fails)]
 
+            # event-triggered cancellation: cancel the waiter that was just notified, before it runs (the instant at
+            # which a cancelled waiter can swallow the wake-up)
+            trigger = {'cancel': None, 'left': (tape.between(1, 2, 'evcancel.n') if cancel_on and tape.chance(1, 2, 'evcancel') else 0)}
+            orig_notify = asyncio.Condition.notify
+
+            def notify_hook(cond, n=1):
+                orig_notify(cond, n)
+                if trigger['left'] <= 0 or trigger['cancel'] is None:
+                    return
+                key = None
+                for k, hp in pool.host_pools.items():
+                    if hp._condition is cond:
+                        key = k
+                if key is None:
+                    return
+                cands = [cj for cj, kk in waiting.items() if kk == key and client_tasks.get(cj) is not None
+                         and not client_tasks[cj].done() and in_pool_acquire(client_tasks[cj])]
+                if cands and tape.chance(1, 2, 'evcancel.now'):
+                    trigger['left'] -= 1
+                    r.probes['cancel_just_notified'] += 1
+                    r.faults['cancel.just_notified'] += 1
+                    r.log('t=%.3f cancel c%d right after a notify on %r' % (loop.time(), cands[0], key))
+                    trigger['cancel'](cands[0])
+            asyncio.Condition.notify = notify_hook
+
             def check_invariants():
                 for key, hp in pool.host_pools.items():
                     if len(hp.busy) > M:
@@ -351,6 +376,7 @@ def run(tape, prop, tier):
                         t.cancel()
                 for ci, when in cancels:
                     loop.call_later(when, do_cancel, ci)
+                trigger['cancel'] = do_cancel
 
                 def do_fail():
                     refuse_next[0] += 1
@@ -430,6 +456,10 @@ def run(tape, prop, tier):
             r.events.extend(net.events)
     finally:
         simset.set_tape(None)
+        try:
+            asyncio.Condition.notify = orig_notify
+        except NameError:
+            pass
     r.workload = workload
     r.nontrivial = ever_blocked[0]
     r.sample = {'workload': workload, 'sim_time': r.sim_time, 'violations': [v.cls for v in r.violations]}
